@@ -36,6 +36,8 @@ def main(argv=None):
         set_large_sizes(opts.tier == 'thorough')
         set_declaration_order_varies(False)     # drivers switch these two on themselves
         set_wide_longitudes(False)
+        from vmon.model.grids import set_overlapping_cells
+        set_overlapping_cells(False)
         set_cell_scale_varies(False)
         ctx = Context(opts, obs)
         anchors = getattr(mod, 'ANCHORS', [])
